@@ -551,9 +551,19 @@ func knownForBase(known []KnownFinding, prop, base string) bool {
 
 var reLabelled = regexp.MustCompile(`\.(ensures|inv|iter|pre|at)\.`)
 
+// isLabelled says whether a locked obligation is an anchor: a clause of a contract whose disappearance means
+// the contracted code could no longer be matched.  Preconditions at call sites count only when they carry a
+// property label (Cxx_...): the preconditions of library functions (reflect_..., structtag_...) and unlabelled
+// ones come and go with harmless refactorings (a removed or cached call).
 func isLabelled(name string) bool {
+	if m := rePreLabel.FindStringSubmatch(name); m != nil {
+		return rePropLabelPre.MatchString(m[1])
+	}
 	return reLabelled.MatchString(name) || strings.Contains(name, ".loop") && strings.Contains(name, ".inv.")
 }
+
+var rePreLabel = regexp.MustCompile(`\.pre\.([A-Za-z0-9_]+)`)
+var rePropLabelPre = regexp.MustCompile(`^(C\d\d_)+`)
 
 func specMentionsProp(sp *FuncSpec, prop string) bool {
 	has := func(l string) bool {
